@@ -489,7 +489,7 @@ fn histories(depth: usize, max: usize) -> Vec<Vec<Act>> {
     inner.updates = small_updates();
     inner.c01 = false;
     let c = Collect { inner, out: Default::default() };
-    let _ = explore(&c, &StateCfg { max_depth: depth, deadline: None, max_found: 1, first_depth: depth });
+    let _ = explore(&c, &StateCfg { max_depth: depth, deadline: None, max_found: 1, first_depth: depth, tolerate: vec![] });
     let mut v = c.out.into_inner().unwrap();
     v.sort_by_key(|t| (std::cmp::Reverse(t.len()), format!("{t:?}")));
     // spread the selection over the list
